@@ -73,7 +73,9 @@ pub fn judge(tree: &E, via_text: bool) -> Verdict {
     let has_action = t.has_action();
     let mut silent_somewhere = false;
     for (i, f) in files.iter().enumerate() {
-        let obs = policy::observe(&run, &comp, i);
+        let mut obs = policy::observe(&run, &comp, i);
+        // framing of runtime-direct printers is decided by C10/C16, not here
+        obs.stream_errors.retain(|s| !s.contains("outside any frame"));
         if obs.outs.is_empty() {
             silent_somewhere = true;
         }
@@ -181,7 +183,12 @@ pub fn run(ctx: &Ctx) -> Report {
     let cases = ctx.tier.pick(60_000u32, 600_000u32);
     let rnd = run_shards(16, |shard| {
         let mut st = Stats::new();
-        let leaf = prop::sample::select(leaves()).boxed();
+        let mut ls = leaves();
+        // formats built by hand: empty, and not ending in a newline
+        ls.push(E::A(Act::Printf(vec![])));
+        ls.push(E::A(Act::Printf(vec![FEl::Lit("x".into())])));
+        ls.push(E::A(Act::PrintFid));
+        let leaf = prop::sample::select(ls).boxed();
         let strat = (crate::gen::expr_over(leaf, 6, 14, true), any::<bool>());
         run_prop(&mut st, ctx.seed, "C09", shard as u64, cases / 16, &strat, |(t, v)| judge(t, *v), |(t, v)| case_json(t, *v));
         st
